@@ -756,11 +756,22 @@ func (g *Gen) Input(n *Node) V {
 			return rng.Pick(r, []V{VStr("zz"), VInt(3), VList()})
 		}
 		out := V{K: "o"}
+		// one record in six is a TYPED Go map (map[string]string: every leaf as its string rendering)
+		stringly := r.P(1, 6)
 		for _, f := range n.Fields {
 			if r.P(15, 100) {
 				continue // missing key
 			}
+			if stringly && f.S.Kind == "prim" {
+				d := g.primD(f.S.PK, true)
+				out.O = append(out.O, KV{f.MapKey(), VStr(d.AsString())})
+				continue
+			}
 			out.O = append(out.O, KV{f.MapKey(), g.Input(f.S)})
+		}
+		if stringly {
+			out.Typed = true
+			return out
 		}
 		if r.P(10, 100) {
 			out.O = append(out.O, KV{"unknown_key", VInt(1)})
